@@ -134,6 +134,12 @@ theorem merge_never_panics {A : Type} (eqF : A → A → Bool) (d1 d2 : Delta A)
     simp only
     split_ifs <;> simp
 
+/-- **`RevocationRegistry::for_issued` never panics** on the ascending index list of any
+`BTreeSet<u32>` (index 0 and indices above `max_cred_num` are refused) -/
+theorem forIssued_never_panics (γ : F) (m : OvfMode) (L : ℕ) (hL : SizeOk L) (issued : List ℕ)
+    (hs : issued.Pairwise (· < ·)) : forIssued ringOps γ m L issued ≠ .panic :=
+  forIssued_ne_panic γ m L hL issued hs
+
 /-! ### outside the size hypothesis: the one known finding
 
 For `max_cred_num ≥ 2^31` the u32 expressions `max_cred_num + 1 - rev_idx`,
